@@ -8,9 +8,10 @@ import Mfi.Driver.GateD
 import Mfi.Driver.AuthD
 import Mfi.Driver.AdminD
 import Mfi.Driver.AccountD
+import Mfi.Driver.TxD
 open Mfi.Driver
 
-def handlers : List (String → List Int → Option String) := [fxOp, panicOp, irOp, igOp, bankOp, tokOp, gateOp, authOp, adminOp, acctOp]
+def handlers : List (String → List Int → Option String) := [fxOp, panicOp, irOp, igOp, bankOp, tokOp, gateOp, authOp, adminOp, acctOp, txOp]
 
 def stepLine (line : String) : String :=
   match line.trimAscii.toString.splitOn " " with
